@@ -123,6 +123,47 @@ DESC = {
               "--more, one `continues` reply, then the peer hangs up: exit status 0 although the announced reply never arrived"),
     "C20-4": ("C20", "print_call_ret -> render_call_ret returning a String; --more output is buffered when stdout is not a terminal",
               "--more with stdout piped, successful replies then an error reply: the pending successful replies are never written"),
+    # ---- round 6 (2026-09-29) ----
+    "C01-5": ("C01", "handle() reads each message through `.take(MAX_MESSAGE_SIZE)` (1 MiB): a longer request comes back without its NUL and is treated as an incomplete tail",
+              "a well-formed request larger than 1 MiB with further requests pipelined behind it"),
+    "C01-6": ("C01", "listen worker: `ErrorKind::SerdeJsonDe(_) => continue` (keep the connection after InvalidParameter) although handle()'s private BufReader, with its read-ahead, is gone",
+              "a real socket served by listen(), a generated-interface call with an ill-typed parameter and at least one request already in flight behind it"),
+    "C02-5": ("C02", "handle(): UTF-8 validation (`from_utf8` + `strip_suffix`) moved in front of the 'is the message complete?' decision",
+              "a request containing a multi-byte character and a chunk boundary strictly inside that character"),
+    "C02-6": ("C02", "listen worker: `let at_eof = !matches!(br.fill_buf(), ..)` evaluated even while a remainder behind an upgrade request waits to be handed over",
+              "upgrade request and first upgraded-protocol bytes in ONE write, the client then waits for the answer without sending more or closing (deadlock)"),
+    "C03-4": ("C03", "handle(): fast path sending every method that starts with `org.varlink.service.` to the built-in interface before the split at the last dot",
+              "an interface whose name has the built-in name as a proper prefix (org.varlink.service.ext.Ping), registered or not"),
+    "C03-5": ("C03", "VarlinkService::new builds the advertised list in registration order and removes repeats with Vec::dedup (adjacent only)",
+              "the same interface name registered more than once, not adjacently: [a, b, a]"),
+    "C06-5": ("C06", "the malformed message echoed in ErrorKind::SerdeJsonDe is capped with String::truncate(256)",
+              "a malformed message longer than 256 bytes with an invalid byte at raw offset 254/255 (U+FFFD straddles the cut: panic)"),
+    "C06-6": ("C06", "listen worker: `unread = rest` (keep the head of a message still in flight) instead of keeping it only after an upgrade",
+              "a peer sends a truncated message without NUL and half-closes: the worker re-feeds the same bytes + EOF forever (spins, never closes)"),
+    "C07-5": ("C07", "send() puts the writer slot back right after the flush; the busy check for oneway looks at the writer slot only (two cooperating edits)",
+              "a oneway() from another call object / thread while a call or `more` iteration is outstanding on the connection"),
+    "C07-6": ("C07", "From<Reply> for ErrorKind collapsed into a helper that matches the member name after `trim_start_matches(\"org.varlink.service.\")`",
+              "an unqualified or doubly-qualified look-alike (`InvalidParameter`, `org.varlink.service.org.varlink.service.MethodNotFound`)"),
+    "C09-1": ("C09", "cargo_build_options_many shares one String buffer across inputs (generate_buffered); read_to_string appends and the buffer is never cleared",
+              "two or more interface files in ONE cargo_build_many call: the second is parsed as file1+file2 and fails"),
+    "C09-2": ("C09", "`format!(\"{}_{}\", name, field)` folded into anon_type_name(), whose map arm drops the `elts.is_empty()` guard of the string-set special case",
+              "a non-empty anonymous struct directly as a map value (`[string](a: int)`): the generator panics in format_ident!"),
+    "C10-1": ("C10", "VStruct::get_multiline_colored rewritten as map/join with the fit test `indent + 2 + len <= max` (plain keeps `<`)",
+              "a multi-line struct with a nested anonymous type at exactly the width where a field's one-line form hits the boundary"),
+    "C10-2": ("C10", "VTypeExt::peel() helper used by get_multiline / get_multiline_colored silently skips a `?` that follows `[]` or `[string]`",
+              "a type such as `[]?(a: int, ..)` in a field that does not fit on one line: the `?` is lost, plain and colored alike"),
+    "C15-5": ("C15", "to_wait / wait_time hoisted out of the accept loop: the idle countdown is set once per listen() call",
+              "idle_timeout > 0 AND a stop flag configured; a short-lived connection late in the idle period"),
+    "C15-6": ("C15", "the stop-flag check moved from the Timeout arm to the top of the accept loop",
+              "idle timeout and stop flag together, the flag set inside the last 100 ms poll before the idle deadline: Err(Timeout) instead of Ok(())"),
+    "C17-4": ("C17", "skip_serializing_if = flag_is_unset (`!flag.unwrap_or(false)`) on Request::{more,oneway,upgrade} and Reply::continues",
+              "a flag explicitly Some(false): omitted on the wire, read back as None"),
+    "C17-5": ("C17", "Reply::parameters gets `#[serde(default, deserialize_with = reply_parameters)]` mapping an empty object to None",
+              "a reply whose parameters are exactly `{}`"),
+    "C20-5": ("C20", "varlink_connect splits tcp `<host>:<port>` at the last colon and calls TcpStream::connect((host, port)) -- the host keeps its brackets (client.rs: the address-form clause shared with C16)",
+              "a bracketed IPv6 literal: `varlink call tcp:[::1]:PORT/iface.Method`"),
+    "C20-6": ("C20", "--more loop swallows ConnectionClosed once `received > 0`",
+              "`call --more`, at least one `continues` reply, then the service hangs up without the final reply: exit 0"),
     "C17-1": ("C17", "skip_serializing_if predicate replaced by `flag_is_default` (omit Some(false) like None) on Request/Reply flags",
               "a flag explicitly set to Some(false): round trip yields None; {\"oneway\":false} re-serialises without the member"),
 }
@@ -144,12 +185,18 @@ def main():
             continue
         prop, what, needs = DESC.get(name, ("?", "?", "?"))
         res = {}
-        for fn in ("result.scratch.json", "result.json"):
+        for fn in ("result.scratch.json", "result.json", "result.own.json"):
             p = os.path.join(d, fn)
             if os.path.exists(p):
                 res = json.load(open(p))
                 break
         results = res.get("results", {})
+        cj = os.path.join(d, "confirm.json")
+        if os.path.exists(cj):
+            c = json.load(open(cj))
+            conf[name] = {"demo_on_unmodified_tree_exit": c["demo_on_HEAD"], "demo_with_patch_exit": c["demo_with_patch"], "existing_tests_with_patch_exit": c["tests_with_patch"],
+                          "existing_tests_run": "cargo test --offline " + " ".join("-p " + x for x in c["test_crates"]), "demo_cmd": c["demo_cmd"],
+                          "demo_on_unmodified_tree": c["base"], "demo_with_patch": c["patched"]}
         meta = {
             "breaks_property": prop, "change": what, "needs_to_manifest": needs,
             "author": "independent sub-agent given only the property text and a scratch worktree of /repo",
